@@ -3,7 +3,7 @@ import SemVerif.Props.C14
 /-!
 # Family T2 at program level — the emitted stacks denote the source
 
-`T2`: for every program of the domain that the model accepts (no error), the abstract reading of
+`T2`: for every program that the model accepts (no panic, no error), the abstract reading of
 each function's root stack (`abstractStack`: register operands expanded through the instructions
 that wrote them, internal names replaced by declaration indices, calls as events in evaluation
 order) is the statement list that the source function denotes under the independent lexical
@@ -35,11 +35,12 @@ theorem flatten_eq_nil_mem {α : Type} {l : List (List α)} (h : l.flatten = [])
   exact h x hx
 
 /-- **T2** — accepted programs: every root stack denotes its source function -/
-theorem T2 (p : Program) (hok : LoopOKB p = true) (hacc : (run p).errors = []) :
+theorem T2 (p : Program) (hnp : (run p).panic = none) (hacc : (run p).errors = []) :
     (run p).roots.map (fun b => abstractStack b.context) = p.fnDecls.map (specStmts false p.rglobals) := by
   have hrel := rel_run p
   have hg := globRel_of_rel hrel
   have hn := gnames_of_rel hrel
+  have hok := anaOK_of_no_panic p hnp
   unfold run at hacc ⊢
   dsimp only at hacc ⊢
   rw [List.append_eq_nil_iff] at hacc
@@ -47,7 +48,7 @@ theorem T2 (p : Program) (hok : LoopOKB p = true) (hacc : (run p).errors = []) :
   rw [List.map_map, List.map_map, fns_eq_fnDecls]
   apply List.map_congr_left
   intro f hf
-  unfold LoopOKB at hok
+  unfold AnaOKB at hok
   rw [List.all_eq_true] at hok
   have he : (functionBody (pass2 p (pass1 p GState.init)).globals f).errors = [] := by
     apply hfl
